@@ -106,6 +106,8 @@ def check_proofs(pid, tier):
 IMPL_TIMEOUT = 3600; MODEL_TIMEOUT = 3600
 INCOMPLETE = []          # what a timeout kept a run from exploring (goes into the evidence)
 STALLED = []             # ... when that is more than a tenth of a family: the correspondence was not established
+RELEASE_TOO = [False]    # the release build of the crate runs every case as well (set by main when that harness builds)
+PROFILE_DIFFS = []       # (family, case, debug observation, release observation): the two build profiles of the crate disagree
 def run_cases(workdir, tag, cases, release=False):
     os.makedirs(workdir, exist_ok=True)
     cf = os.path.join(workdir, tag + '.cases'); of = os.path.join(workdir, tag + '.obs'); vf = os.path.join(workdir, tag + '.verdict')
@@ -128,6 +130,21 @@ def run_cases(workdir, tag, cases, release=False):
             if k < len(cases): out.write(cases[k] + '\tpanic\n')
         cases = cases[:k + 1]
         INCOMPLETE.append('%s: the implementation did not finish within %d s; case %d is reported as a hang, %d cases after it were not run' % (tag, IMPL_TIMEOUT, k, 0))
+    if RELEASE_TOO[0] and not release and not hung:
+        # the same cases through the release build (no overflow checks, no debug assertions, optimised): both profiles must observe the same
+        rf = os.path.join(workdir, tag + '.obs_release')
+        try:
+            with open(rf, 'w') as out:
+                p = subprocess.run([B.harness_bin(True), cf], stdout=out, stderr=subprocess.PIPE, timeout=IMPL_TIMEOUT)
+            if p.returncode == 0:
+                with open(of) as fd, open(rf) as fr:
+                    for c, ld, lr in zip(cases, fd, fr):
+                        if ld != lr and len(PROFILE_DIFFS) < 50:
+                            PROFILE_DIFFS.append((tag, c, ld.rstrip('\n').split('\t', 1)[-1][:400], lr.rstrip('\n').split('\t', 1)[-1][:400]))
+        except subprocess.TimeoutExpired:
+            INCOMPLETE.append('%s: the release build did not finish within %d s' % (tag, IMPL_TIMEOUT))
+        finally:
+            if os.path.exists(rf): os.remove(rf)
     with open(vf, 'w') as out:
         try:
             p = subprocess.run('ulimit -s unlimited 2>/dev/null; exec %s %s' % (os.path.join(BUILD, 'driver'), of), shell=True,
@@ -214,6 +231,8 @@ def main():
     if not okh:
         violations.append({'what': 'the harness no longer builds against /repo (public API changed?): ' + outh[-600:],
                            'replay': {'correspondence': 'harness build', 'log': outh[-2000:]}, 'no_input': True})
+    okr, outr = B.build_harness(True) if okh else (False, '')
+    RELEASE_TOO[0] = bool(okr)
     proofs = check_proofs(pid, tier)
     if not okd and not any('Coq build failed' in p for p in proofs['problems']):
         proofs['problems'].append('extraction/driver build failed: ' + outd[-400:])
@@ -239,6 +258,8 @@ def main():
             triples = run_cases(workdir, fam_name, cases)
             diffs = [(c, o, v) for (c, o, v) in triples if v.startswith('DIFF') or v.startswith('BAD')]
             panics = [(c, o, v) for (c, o, v) in triples if o == 'panic' or o.endswith(' panic)')]
+            # two entry points of the crate that must agree did not (FromStr vs parse, == / Hash vs structure, satisfies both ways, cmp vs partial_cmp)
+            incons = [(c, o, v) for (c, o, v) in triples if o == '(inconsistent)']
             ev = fam['eval'](triples, tier, rng)     # {'failures': [...], 'nontrivial': int, 'distribution': {...}, 'certs': [...]}
             cov['evaluations'] += len(triples) + ev.get('extra_evaluations', 0)
             cov['distinct_nontrivial'] += ev['nontrivial']
@@ -271,12 +292,19 @@ def main():
                                    % (fam_name, len(unexplained)),
                                    'replay': {'correspondence': fam_name, 'case': c, 'impl': o, 'model': v, 'count': len(unexplained),
                                               'more': [x[0] for x in unexplained[1:6]]}, 'no_input': True})
+            if incons and not any(fl.get('case') == incons[0][0] for fl in fails):
+                c, o, v = incons[0]
+                violations.append({'what': 'two entry points of the crate that must agree do not (FromStr vs parse, Range == / Hash vs its structure, Version::satisfies vs Range::satisfies, cmp vs partial_cmp) on a case of family %s: %s' % (fam_name, c[:300]),
+                                   'replay': {'correspondence': fam_name, 'case': c, 'impl': o, 'model': v, 'input': [c[:300]]}, 'no_input': False})
             if panics and not spec.get('panics_expected'):
                 unexplained_p = [d for d in panics if not any(fl.get('case') == d[0] for fl in fails)]
                 if unexplained_p and not any(not v_['no_input'] for v_ in violations):
                     c, o, v = unexplained_p[0]
                     violations.append({'what': 'implementation panicked on a case of family %s (the model proves Ok/Err there)' % fam_name,
                                        'replay': {'correspondence': fam_name, 'case': c, 'impl': o, 'model': v}, 'no_input': not spec.get('panic_is_failure')})
+        for (fam_name_, c, od, orl) in PROFILE_DIFFS[:3]:
+            violations.append({'what': 'the debug and the release build of the crate observe different results on a case of family %s: %s -> debug %s, release %s' % (fam_name_, c[:300], od[:200], orl[:200]),
+                               'replay': {'correspondence': fam_name_, 'case': c, 'impl_debug': od, 'impl_release': orl, 'input': [c[:300]]}, 'no_input': False})
         if STALLED and not violations:
             violations.append({'what': 'the correspondence could not be run to completion: ' + '; '.join(STALLED),
                                'replay': {'correspondence': 'model driver timeout', 'detail': list(STALLED)}, 'no_input': True})
@@ -318,6 +346,8 @@ def main():
             'families': cov['families'], 'disagreements': cov['disagreements'], 'impl_panics': cov['impl_panics'],
             'known_findings_seen': sorted(known_hits.keys()),
             'not_explored_because_of_timeouts': list(INCOMPLETE),
+            'build_profiles': ['debug (overflow checks, debug assertions)'] + (['release (every case again; observations must be identical)'] if RELEASE_TOO[0] else []),
+            'profile_disagreements': len(PROFILE_DIFFS),
             'explanation': spec.get('explanation', ''),
         },
         'assumptions': spec.get('assumptions', []) + ['the correspondence is differential testing; it is exhaustive only over the finite universes named in coverage.families'],
